@@ -42,8 +42,8 @@ CHECKS["C02"] = dict(
 )
 CHECKS["C03"] = dict(
     category="exploration",
-    technique="exhaustive input enumeration (IX) of the real FrameCodec against an independent reference codec",
-    text="All 65536 payload lengths; all 256 command bytes x 39 ids x 8 boundary lengths incl. encode/decode round trip; over-long payloads; every sequence of <=3 frames over a 9-frame alphabet (+ every proper prefix as incomplete tail) under every cut pattern (streams <=16 bytes quick, <=20 thorough) or every <=2/3-cut pattern and byte-at-a-time; every value of each header byte in 4 contexts; all 65536 length-field values against a short buffer; all 1-2 byte strings. Encodes appended to a kept buffer with refused (over-long) encodes in between must leave no stray bytes.",
+    technique="exhaustive input enumeration (IX) of the real FrameCodec against an independent reference codec, and of the real Session reader (recv_loop) under every piece pattern of short frame sequences",
+    text="All 65536 payload lengths; all 256 command bytes x 39 ids x 8 boundary lengths incl. encode/decode round trip; over-long payloads; every sequence of <=3 frames over a 9-frame alphabet (+ every proper prefix as incomplete tail) under every cut pattern (streams <=16 bytes quick, <=20 thorough) or every <=2/3-cut pattern and byte-at-a-time; every value of each header byte in 4 contexts; all 65536 length-field values against a short buffer; all 1-2 byte strings. The session's own reader: 4 frame sequences (empty-bodied HeartRequests, Waste frames of 1/3/5/9 bytes between them) fed to a real server Session under every pattern of <=3 (4) cuts, one transport read per piece; the HeartResponses written back must equal those of whole delivery. Encodes appended to a kept buffer with refused (over-long) encodes in between must leave no stray bytes.",
     note="Trusted: the 40-line reference codec in harness/src/refmodel.rs; 2^32 ids are represented by 39 (the id is copied, never computed on).",
     design="DESIGN.md §6 C03",
 )
@@ -88,7 +88,7 @@ CHECKS["C14"] = dict(
 CHECKS["C08"] = dict(
     category="model_checking",
     technique="deviation-bounded schedule/transport exploration (DX) of the receive-side end-of-stream mechanism on real sessions, plus loopback propagation cases through the real forwarding loops (SEMI/LX)",
-    text="Receive side (both roles): 0..3 data frames then FIN, reader blocked / arriving later / holding a partly consumed chunk, 5 read-buffer sizes, optional sibling stream, short reads straddling the FIN header and <= 2 (3) scheduling deviations; the reader must see end-of-stream after exactly the bytes sent before the FIN, the sibling and the opposite direction keep working, the session tables drop the id. Propagation: a target that sends M bytes and closes / half-closes behind the real TcpProxyHandler, and an application that sends N bytes and closes / half-closes through the real SOCKS5 and HTTP CONNECT front-ends over TLS; the opposite endpoint must see end-of-stream after exactly those bytes. Receive side also with another task calling close() on the session while the FIN is handled (<= 2 (3) deviations: the reader must terminate having read a prefix), with zero-length read calls and with another task inside open_stream() while the FIN is handled.",
+    text="Receive side (both roles): 0..3 data frames then FIN, reader blocked / arriving later / holding a partly consumed chunk, 5 read-buffer sizes, optional sibling stream, short reads straddling the FIN header and <= 2 (3) scheduling deviations; the reader must see end-of-stream after exactly the bytes sent before the FIN, the sibling and the opposite direction keep working, the session tables drop the id. Propagation: a target that sends M bytes and closes / half-closes behind the real TcpProxyHandler, and an application that sends N bytes and closes / half-closes through the real SOCKS5 and HTTP CONNECT front-ends over TLS; the opposite endpoint must see end-of-stream after exactly those bytes. Server relay with the application's FIN frame arriving after the first of three parts of the target's answer (3 / 9 / 30000 (/ 100000) bytes): the remaining parts must still arrive. Receive side also with another task calling close() on the session while the FIN is handled (<= 2 (3) deviations: the reader must terminate having read a prefix), with zero-length read calls and with another task inside open_stream() while the FIN is handled.",
     note="Trusted: scripted peer for the receive side; real time and a 3 s wait to conclude 'never observes end-of-stream' in the propagation part (cannot accuse correct code on loopback). The send side is an open known finding (no FIN is ever emitted), keyed per call site.",
     design="DESIGN.md §6 C08",
 )
